@@ -239,6 +239,7 @@ type run struct {
 	// heights of the blocks holding a response to a request older than MaxTraceableBlocks
 	oraStaleAt map[uint32]bool
 	afterX     []*transaction.Transaction // C04: halting transactions that follow X / its twin in the block
+	syncPoint  uint32                     // C20 part B: the state synchronisation point of the run
 }
 
 func (r *run) violate(v *sim.Violation) {
@@ -841,6 +842,9 @@ func (r *run) compare(n *Node, h uint32, when string) {
 		}
 		if r.oracleOriginalTxNotKept(n, h) {
 			sig += "+oracle-original-tx-not-kept"
+		} else if when == "after-sync-lockstep" && r.syncPoint > 0 && r.ledgerVMStateOfBlockUpTo(h, r.syncPoint) {
+			// finding F-led-1 (see ledgerVMStateOfBlockUpTo)
+			sig += "+ledger-vmstate-of-unexecuted-tx"
 		}
 		r.violate(sim.Violatef("divergence", sig, "%s", msg))
 	}
